@@ -295,14 +295,17 @@ func randomMatcher(rng *rand.Rand, depth int) vh.Matcher {
 }
 
 // directedRouterRun: instance families that random choice hardly ever hits (every tenth instance is one of them).
-//   drain:   a handler consumes EXACTLY the bytes the first matching round prefetched (the client pauses there), then a
-//            route that needs several more chunks, the two rounds together exceeding the matching limit - the second
-//            round has the whole limit to itself
-//   noterr:  a `not` over a matcher that fails: matching ends by the error, the route does not run
-//   notfull: a `not` over a matcher that needs more than the matching limit holds: matching ends by buffer exhaustion
-//   emptyset, teelast: see below
+//
+//	drain:   a handler consumes EXACTLY the bytes the first matching round prefetched (the client pauses there), then a
+//	         route that needs several more chunks, the two rounds together exceeding the matching limit - the second
+//	         round has the whole limit to itself
+//	noterr:  a `not` over a matcher that fails: matching ends by the error, the route does not run
+//	notfull: a `not` over a matcher that needs more than the matching limit holds: matching ends by buffer exhaustion
+//	emptyset, teelast: see below
 func directedRouterRun(rng *rand.Rand, tag int64) *vh.RouterRun {
-	thr := func(at int, v string) vh.Matcher { return vh.Matcher{K: "thr", At: at, V: v, W: v, Sub: [][]vh.Matcher{}} }
+	thr := func(at int, v string) vh.Matcher {
+		return vh.Matcher{K: "thr", At: at, V: v, W: v, Sub: [][]vh.Matcher{}}
+	}
 	switch (tag / 10) % 5 {
 	case 0:
 		n := 2048 * (1 + rng.Intn(3))
